@@ -3,7 +3,7 @@
    only go forward), alias sources are dead ids, every raw target and every watched id resolves to
    a block id / the pending id / an id still owed by an enclosing construct; at the end of a
    function nothing is owed and finalize materialises the pending id. *)
-From Aelys Require Import Base.Tactics Model.AirLower Proofs.AirLowerProofs.
+From Aelys Require Import Base.Tactics Extracted.LowerFlags Model.AirLower Proofs.AirLowerProofs.
 Local Open Scope N_scope.
 
 (* dangling targets of one function *)
@@ -138,6 +138,17 @@ Lemma emit_inv O W d s : Inv O W d s -> Inv O W d (emit s).
 Proof. intro H. eapply same_inv; [exact H|..]; reflexivity. Qed.
 Lemma add_name_inv x O W d s : Inv O W d s -> Inv O W d (add_name x s).
 Proof. intro H. eapply same_inv; [exact H|..]; reflexivity. Qed.
+
+Lemma scope_block_inv n O W d s : Inv O W d s -> Inv O W d (scope_block n s) /\ loops (scope_block n s) = loops s.
+Proof.
+  intro H. unfold scope_block. destruct BLOCK_SCOPES_NAMES; [|split; [exact H|reflexivity]].
+  split; [eapply same_inv; [exact H|..]; reflexivity|reflexivity].
+Qed.
+Lemma scope_loop_inv n O W d s : Inv O W d s -> Inv O W d (scope_loop n s) /\ loops (scope_loop n s) = loops s.
+Proof.
+  intro H. unfold scope_loop. destruct LOOP_SCOPES_NAMES; [|split; [exact H|reflexivity]].
+  split; [eapply same_inv; [exact H|..]; reflexivity|reflexivity].
+Qed.
 
 Lemma alloc_inv_drop O W d s : Inv O W d s ->
   Inv O W d (snd (alloc s)) /\ avail (snd (alloc s)) (next s) /\ ~ In (next s) (froms (snd (alloc s))).
@@ -594,10 +605,11 @@ Proof.
   pose proof (noop_inv _ _ d ex _ H16 ltac:(inrm)) as H17.
   match type of H17 with Inv _ _ _ ?st => assert (LL : loops st = loops s) end.
   { lp. rewrite L14. lp. rewrite L10. lp. cbn [tl]. lp. subst s6. lp. exact L2. }
-  split; [|exact LL].
+  destruct (scope_loop_inv (length (names s)) _ _ _ _ H17) as [H18 L18].
+  split; [|rewrite L18; exact LL].
   eapply inv_equiv.
-  - eapply inv_unwatch; [exact H17|intros w Hw; right; right; right; exact Hw|].
-    rewrite LL. apply (t_loop _ _ _ _ (inv_T _ _ _ _ H0)).
+  - eapply inv_unwatch; [exact H18|intros w Hw; right; right; right; exact Hw|].
+    rewrite L18, LL. apply (t_loop _ _ _ _ (inv_T _ _ _ _ H0)).
   - fin_equiv Hlt.
 Qed.
 
@@ -654,10 +666,11 @@ Proof.
   pose proof (noop_inv _ _ d ex _ H16 ltac:(inrm)) as H17.
   match type of H17 with Inv _ _ _ ?st => assert (LL : loops st = loops s) end.
   { lp. rewrite L10. lp. cbn [tl]. lp. subst s6. lp. exact L2. }
-  split; [|exact LL].
+  destruct (scope_loop_inv (length (names s)) _ _ _ _ H17) as [H18 L18].
+  split; [|rewrite L18; exact LL].
   eapply inv_equiv.
-  - eapply inv_unwatch; [exact H17|intros w Hw; right; right; right; exact Hw|].
-    rewrite LL. apply (t_loop _ _ _ _ (inv_T _ _ _ _ H0)).
+  - eapply inv_unwatch; [exact H18|intros w Hw; right; right; right; exact Hw|].
+    rewrite L18, LL. apply (t_loop _ _ _ _ (inv_T _ _ _ _ H0)).
   - fin_equiv Hlt.
 Qed.
 
@@ -822,7 +835,8 @@ Proof.
   - intros x e IH O W d s H. cbn [lower_stmt].
     destruct (IH _ _ _ _ (add_name_inv x _ _ _ _ H)) as [H1 L1].
     split; [apply emit_inv; exact H1|lp; rewrite L1; lp; reflexivity].
-  - intros b IH O W d s H. cbn [lower_stmt]. apply IH; assumption.
+  - intros b IH O W d s H. cbn [lower_stmt]. destruct (IH _ _ _ _ H) as [H1 L1].
+    destruct (scope_block_inv (length (names s)) _ _ _ _ H1) as [H2 L2]. split; [exact H2|rewrite L2; exact L1].
   - intros c IHc t IHt. apply tcase_SIf; assumption.
   - intros c IHc t IHt e IHe. apply tcase_SIfElse; assumption.
   - intros c IHc b IHb. apply tcase_SWhile; assumption.
